@@ -16,7 +16,8 @@ def sym_contact(A, n, link_idx, prefix='c'):
   c = SymContact()
   c.dist, c.pos, c.frame = A.arr(prefix + 'dist', (n,)), A.arr(prefix + 'pos', (n, 3)), A.arr(prefix + 'frame', (n, 3, 3))
   c.friction, c.elasticity = A.arr(prefix + 'fric', (n, 5)), A.arr(prefix + 'el', (n,))
-  c.obj = Contact(dist=Sym(c.dist), pos=Sym(c.pos), frame=Sym(c.frame), includemargin=jp.zeros((n,)), friction=Sym(c.friction),
+  c.margin = A.arr(prefix + 'margin', (n,))      # geom margin - gap: ANY value (unused by the pinned tree; a kernel that starts to read it must still satisfy the clauses)
+  c.obj = Contact(dist=Sym(c.dist), pos=Sym(c.pos), frame=Sym(c.frame), includemargin=Sym(c.margin), friction=Sym(c.friction),
                   solref=jp.zeros((n, 2)), solreffriction=jp.zeros((n, 2)), solimp=jp.zeros((n, 5)), dim=np.full((n,), 3), geom1=np.zeros((n,), dtype=int),
                   geom2=np.ones((n,), dtype=int), geom=np.zeros((n, 2), dtype=int), efc_address=np.zeros((n,), dtype=int),
                   link_idx=(jp.asarray(link_idx[0]), jp.asarray(link_idx[1])), elasticity=Sym(c.elasticity))
@@ -256,7 +257,7 @@ def contact_inert(pipeline, ncon, tiers):
         (x_i, dl), xdv = sym_call(I, lambda ss_, s, p, xp, cc: (lambda r: (r, collisions.resolve_velocity(ss_, s, xp, cc, r[1])))(_resolve_pos_raw(collisions, ss_, s, p, cc)), sysm, st, prev, xdprev, c.obj)
       goal = [a == b for a, b in zip(x_i.pos.reshape(-1), raw['pos'].reshape(-1))] + [e == 0 for e in dl.reshape(-1)]
       goal += [e == 0 for e in list(xdv.vel.reshape(-1)) + list(xdv.ang.reshape(-1))]
-    r = smt_prove(A, pre, goal, timeout_s=200, seed=seed())
+    r = smt_prove(A, pre, goal, timeout_s=200, seed=seed(), split_first=(pipeline == 'positional'))
     if r.verdict == REFUTED:
       r.replay = _native_separated(pipeline)
     return r
@@ -286,7 +287,22 @@ def _native_separated(pipeline):
       st = jax.jit(pl.step)(sys, st, jp.zeros(0))
     outs.append(np.concatenate([np.asarray(st.q), np.asarray(st.qd)]))
   d = float(np.abs(outs[0] - outs[1]).max())
-  return {'reproduced': d > 1e-9, 'max_difference_separated_vs_no_collision_geometry': d, 'pipeline': pipeline}
+  if d > 1e-9:
+    return {'reproduced': True, 'max_difference_separated_vs_no_collision_geometry': d, 'pipeline': pipeline}
+  # a sphere 5 mm above the ground whose geoms carry a 3 cm MuJoCo margin: separated (distance > 0) but inside the margin
+  base2 = ('<mujoco><option timestep="0.004" gravity="0 0 0"/><worldbody><geom name="floor" type="plane" size="5 5 0.1" margin="0.03" %s/>'
+           '<body name="a" pos="0 0 0.105"><freejoint/><geom type="sphere" size="0.1" margin="0.03" %s/></body></worldbody></mujoco>')
+  outs2 = []
+  for attrs in (('', ''), (off, off)):
+    sys = mjcf.loads(base2 % attrs)
+    st = pl.init(sys, sys.init_q, jp.array([0.1, 0, 0, 0, 0.2, 0]))
+    for _ in range(2):
+      st = jax.jit(pl.step)(sys, st, jp.zeros(0))
+    outs2.append(np.concatenate([np.asarray(st.q), np.asarray(st.qd)]))
+  d2 = float(np.abs(outs2[0] - outs2[1]).max())
+  return {'reproduced': d2 > 1e-9, 'max_difference_separated_vs_no_collision_geometry': max(d, d2), 'pipeline': pipeline,
+          'scene': 'sphere r=0.1 at z=0.105 over a plane, geom margin 0.03, no gravity, 2 steps: with collision geometry vs contype=conaffinity=0',
+          'state_with': outs2[0].tolist(), 'state_without': outs2[1].tolist()}
 
 
 def generalized_masks():
